@@ -189,6 +189,15 @@ def run_check(prop, tier, seed, jobs=None):
             else:
                 path = oblmod.write_replay(prop, o)
                 reported.append((o, path, ""))
+    # conformance sampling of the primitive models against the real torch / numpy (never counted as proof)
+    conf = None
+    if getattr(L, "MANIFEST", {}).get("engine", "").find("qv-native") >= 0:
+        try:
+            from . import conformance, native as _native
+            conf = conformance.run(seed)
+        except Exception as e:
+            conf = {"calls": 0, "mismatches": [("conformance sampler", "crashed: %r" % (e,))]}
+        main[0]["bounded"].append({"label": "primitive-model conformance sample", "calls": conf["calls"], "mismatches": conf["mismatches"]})
     wall = time.time() - t0
     ev = evidence.build(prop, tier, seed, L, main, can, obls, viol, und, reported, known_hits, dead, crashes, wall)
     evidence.write(prop, ev)
@@ -202,6 +211,9 @@ def run_check(prop, tier, seed, jobs=None):
             continue
         seen.add(kf["id"])
         print("KNOWN-FINDING: property=%s %s" % (prop, kf["what"]))
+    if conf and conf["mismatches"]:
+        print("PRIMITIVE-MODEL-MISMATCH (assumed contract of a torch/numpy primitive disagrees with the library): %s" % (conf["mismatches"][:3],), file=sys.stderr)
+        return 3
     if crashes:
         for r in crashes[:3]:
             print("CHECKER-CRASH cfg=%s\n%s" % (r["cfg"], r["error"]), file=sys.stderr)
